@@ -5,6 +5,8 @@ import "github.com/filecoin-project/go-f3/zz_verif/kernel"
 // Run dispatches to the check of the given property.
 func Run(prop, tier string, c *kernel.Chooser, r *kernel.Recorder) *kernel.Violation {
 	switch prop {
+	case "C03":
+		return runC03host(prop, tier, c, r)
 	case "C15":
 		return runC15(prop, tier, c, r)
 	case "C18":
